@@ -84,4 +84,36 @@ pub fn segseg_case(cx: &mut Ctx, n: u64, case: &Value) {
             }
         }
     }
+    // f32 scalar type and the Geometry-level entry points (lattice coordinates are exact in f32)
+    {
+        let f = |c: Coord<f64>| Coord { x: c.x as f32, y: c.y as f32 };
+        let (p, q) = (Line::new(f(a), f(b)), Line::new(f(c), f(d)));
+        for (l1, l2, what) in [(p, q, "(ab, cd)"), (q, p, "(cd, ab)")] {
+            let got = guard(|| line_intersection(l1, l2));
+            let ok = match (&got, kind) {
+                (Ok(None), "none") => true,
+                (Ok(Some(LineIntersection::Collinear { intersection })), "collinear") => {
+                    let (lo, hi) = (f(coord(&rel["lo"])), f(coord(&rel["hi"])));
+                    (intersection.start == lo && intersection.end == hi) || (intersection.start == hi && intersection.end == lo)
+                }
+                (Ok(Some(LineIntersection::SinglePoint { intersection, is_proper })), "point") => {
+                    let want_proper = rel["proper"].as_bool().unwrap();
+                    *is_proper == want_proper && if !want_proper { *intersection == f(coord(&rel["at"])) } else {
+                        let w = Coord { x: (rel["x"][0].as_f64().unwrap() / rel["x"][1].as_f64().unwrap()) as f32, y: (rel["y"][0].as_f64().unwrap() / rel["y"][1].as_f64().unwrap()) as f32 };
+                        (intersection.x - w.x).abs() <= 1e-5 && (intersection.y - w.y).abs() <= 1e-5
+                    }
+                }
+                _ => false,
+            };
+            if ok { cx.ok("line_intersection_f32"); } else { cx.bad("C11", "line_intersection_f32", case, json!({"what": format!("Line<f32> {what}"), "got": format!("{got:?}")})); }
+            let ix = guard(|| l1.intersects(&l2));
+            if ix == Ok(kind != "none") { cx.ok("agrees_with_intersects_f32"); } else { cx.bad("C11", "agrees_with_intersects_f32", case, json!({"what": format!("Line<f32>::intersects {what}"), "got": format!("{ix:?}")})); }
+        }
+        // Line::intersects through the Geometry enum and against the one-segment LineString form of the other operand
+        let (ga, gb) = (geo::Geometry::Line(Line::new(a, b)), geo::Geometry::LineString(geo::LineString::new(vec![c, d])));
+        let ix = guard(|| (ga.intersects(&gb), gb.intersects(&ga), Line::new(a, b).intersects(&geo::LineString::new(vec![c, d]))));
+        let w = kind != "none";
+        if c != d || a != b { if ix == Ok((w, w, w)) { cx.ok("agrees_with_intersects_other_forms"); } else {
+            cx.bad("C11", "agrees_with_intersects_other_forms", case, json!({"what": "Geometry::Line(ab) / LineString(cd) intersects", "got": format!("{ix:?}"), "want": w})); } }
+    }
 }
